@@ -64,7 +64,7 @@ def model_class(rec):
     return 3
 
 
-def resolve_real(recs, order, via_stream=False):
+def resolve_real(recs, order, via_stream=False, via_pickle=False):
     """returns list (aligned with recs) of (assignment_type name, gene_assignment_type name) after resolution"""
     from src.multimap_resolver import MultimapResolver, MultimapResolvingStrategy
     from src.isoform_assignment import BasicReadAssignment
@@ -75,6 +75,10 @@ def resolve_real(recs, order, via_stream=False):
             o.serialize(buf)
         buf.seek(0)
         objs = [BasicReadAssignment.deserialize(buf) for _ in objs]
+    if via_pickle:
+        # --high_memory with --threads > 1: the compact records reach the resolver through the pool's pickle boundary
+        import pickle
+        objs = pickle.loads(pickle.dumps(objs, protocol=pickle.HIGHEST_PROTOCOL))
     res = MultimapResolver(MultimapResolvingStrategy.take_best).resolve(objs)
     out = [None] * len(recs)
     byid = {o.assignment_id: o for o in res}
@@ -170,6 +174,9 @@ def judge(recs, max_perms=720, rng=None):
             b = resolve_real(recs, order, via_stream=True)
             if a != b:
                 problems.append(("stream-differs", "verdicts differ after serialize/deserialize: %s vs %s" % (a, b)))
+            c = resolve_real(recs, order, via_pickle=True)
+            if a != c:
+                problems.append(("pickle-differs", "verdicts differ after the pool's pickle round trip: %s vs %s" % (a, c)))
         except Exception as e:
             problems.append(("stream-crash", "%s: %r" % (type(e).__name__, e)))
     return problems
